@@ -561,6 +561,44 @@ impl TypedScenario for C03BigSid {
     }
 }
 
+/// Datagrams of the live session interleaved with datagrams naming other sessions, against an
+/// application that is waiting in receive_datagram or busy between its calls: what the
+/// application gets are exactly own payloads (C17's scenario restricted to datagrams).
+pub struct C03Foreign;
+
+impl TypedScenario for C03Foreign {
+    type Plan = crate::props::c17::Plan;
+    fn name(&self) -> &'static str {
+        "raw-foreign-datagrams"
+    }
+    fn budget(&self, tier: Tier) -> usize {
+        match tier {
+            Tier::Quick => 1500,
+            Tier::Thorough => 100_000,
+        }
+    }
+    fn generate(&self, seed: u64, index: usize, tier: Tier) -> Self::Plan {
+        use crate::props::c17::Item;
+        let mut p = crate::props::c17::gen_plan(seed ^ 0x6333, index, tier);
+        for it in p.items.iter_mut() {
+            *it = match it.clone() {
+                Item::OwnUni { tag } | Item::OwnBi { tag } => Item::OwnDgram { tag },
+                Item::ForeignUni { sid, tag } | Item::ForeignBi { sid, tag } => Item::ForeignDgram { sid, tag },
+                other => other,
+            };
+        }
+        p.base.app_pace_ms = [0u64, 20, 150][index % 3];
+        p
+    }
+    fn execute(&self, plan: &Self::Plan, trace: bool) -> Exec {
+        crate::props::c17::execute(plan, trace).relabel("C17/", "C03/")
+    }
+    fn shrink(&self, plan: &Self::Plan) -> Vec<Self::Plan> {
+        let v = serde_json::to_value(plan).unwrap();
+        shrink_array(&v, "/items", 1).into_iter().filter_map(|v| serde_json::from_value(v).ok()).collect()
+    }
+}
+
 pub fn def() -> PropertyDef {
     PropertyDef {
         id: "C03",
@@ -568,8 +606,9 @@ pub fn def() -> PropertyDef {
             Box::new(Typed(C03E2E { faulty: false })),
             Box::new(Typed(C03E2E { faulty: true })),
             Box::new(Typed(C03BigSid)),
+            Box::new(Typed(C03Foreign)),
         ],
-        rule: "e2e-*: real client and server; the first 28 runs sweep the peer's datagram receive limit (None, 1,2,3,5,8,9,10,11,20,64,1200,1500,65535) on either side, the rest sample it; size-contract probe with no await between max_datagram_size() and the sends (lengths 0,1,m-1,m must not be TooLarge; m+1,m+2,m+10 must be; None exactly when the peer disabled datagrams or nothing fits); 1-4 bursts of 1-12 unique payloads (lengths 0..max incl. max-0..3) in both directions with 1-3 concurrent receive_datagram callers per side; oracle: received multiset is a sub-multiset of the sent one (never altered, merged, truncated, duplicated, framing never visible; payload() == deref). raw-large-session-id: a raw client (which encodes the quarter stream id of its datagrams in every varint length, shortest and non-shortest) burns stream ids so the session id needs a 2-byte (quick) or 4-byte (thorough) quarter stream id; checks delivery, the exact wire form (shortest quarter-id varint + payload) and the size contract with a multi-byte header. 8-byte quarter ids need 2^28 streams and are out of reach in situ. Non-trivial = something was delivered or a size probe ran, and (fault batch) a fault fired; distinct = distinct plan hashes.",
+        rule: "e2e-*: real client and server; the first 28 runs sweep the peer's datagram receive limit (None, 1,2,3,5,8,9,10,11,20,64,1200,1500,65535) on either side, the rest sample it; size-contract probe with no await between max_datagram_size() and the sends (lengths 0,1,m-1,m must not be TooLarge; m+1,m+2,m+10 must be; None exactly when the peer disabled datagrams or nothing fits); 1-4 bursts of 1-12 unique payloads (lengths 0..max incl. max-0..3) in both directions with 1-3 concurrent receive_datagram callers per side; oracle: received multiset is a sub-multiset of the sent one (never altered, merged, truncated, duplicated, framing never visible; payload() == deref). raw-large-session-id: a raw client (which encodes the quarter stream id of its datagrams in every varint length, shortest and non-shortest) burns stream ids so the session id needs a 2-byte (quick) or 4-byte (thorough) quarter stream id; checks delivery, the exact wire form (shortest quarter-id varint + payload) and the size contract with a multi-byte header. 8-byte quarter ids need 2^28 streams and are out of reach in situ. raw-foreign-datagrams: the raw peer interleaves datagrams of the live session (every varint length of the quarter id) with datagrams naming other sessions (incl. ids equal to the live one modulo 2^8 / 2^16 / 2^32) while the application is waiting in receive_datagram or pauses 20 / 150 ms before every call: every payload handed to the application is an own payload, unaltered, and on the unpaced third every own datagram arrives. Non-trivial = something was delivered or a size probe ran, and (fault batch) a fault fired; distinct = distinct plan hashes.",
         assumptions: vec![
             "under injected loss the datagram oracle is inclusion (datagrams may be lost or reordered), never equality; UDP-level duplication must be absorbed by QUIC",
             "quinn/rustls/tokio executed for real but trusted; current-thread runtime",
